@@ -82,6 +82,28 @@ fn view(cst: &Cst<'_>, out: &mut String) {
 fn main() {
     for line in std::io::stdin().lock().lines() {
         let line = line.unwrap();
+        if let Some(rest) = line.strip_prefix("TWICE ") {
+            // lelwel::compile twice in THIS process on two copies of the same grammar: generated code must be byte-identical
+            let (dir, hex) = rest.split_once(' ').unwrap();
+            let bytes: Vec<u8> = (0..hex.len() / 2).map(|i| u8::from_str_radix(&hex[2 * i..2 * i + 2], 16).unwrap()).collect();
+            let mut outs = vec![];
+            for k in 0..2 {
+                let d = format!("{dir}/run{k}");
+                let _ = std::fs::remove_dir_all(&d);
+                std::fs::create_dir_all(&d).unwrap();
+                std::fs::write(format!("{d}/g.llw"), &bytes).unwrap();
+                let ok = lelwel::compile(&format!("{d}/g.llw"), &d, false, false, 0, false, true);
+                let generated = std::fs::read(format!("{d}/generated.rs")).ok();
+                outs.push((format!("{ok:?}"), generated));
+            }
+            let same = outs[0] == outs[1];
+            let first_diff = match (&outs[0].1, &outs[1].1) {
+                (Some(a), Some(b)) => a.iter().zip(b.iter()).position(|(x, y)| x != y).map(|p| p as i64).unwrap_or(if a.len() == b.len() { -1 } else { a.len().min(b.len()) as i64 }),
+                _ => -1,
+            };
+            println!("{{\"twice\":true,\"same\":{},\"generated\":{},\"len\":{},\"first_diff\":{}}}", same, outs[0].1.is_some(), outs[0].1.as_ref().map_or(0, |v| v.len()), first_diff);
+            continue;
+        }
         if let Some(hex) = line.strip_prefix("TEXT ") {
             // raw text mode: the whole front end on an arbitrary UTF-8 text given as hex
             let bytes: Vec<u8> = (0..hex.len() / 2).map(|i| u8::from_str_radix(&hex[2 * i..2 * i + 2], 16).unwrap()).collect();
